@@ -610,24 +610,62 @@ def geometric(ctx):
     f = P.func('GeometricMTF._compute_field_data')
     res.saw(f)
     s = Code(P, f)
-    checks = [
-        ('A, edges = np.histogram(xi, bins=self.num_points + 1)' in s,
-         'line spread = histogram of the spot coordinate'),
-        ('x = (edges[1:] + edges[:-1]) / 2' in s, 'bin centres'),
-        ('Ac = np.sum(A * np.cos(2 * np.pi * v[k] * x) * dx) / '
-         'np.sum(A * dx)' in s, 'cosine transform / area'),
-        ('As = np.sum(A * np.sin(2 * np.pi * v[k] * x) * dx) / '
-         'np.sum(A * dx)' in s, 'sine transform / area'),
-        ('mtf[k] = np.sqrt(Ac ** 2 + As ** 2)' in s, 'modulus'),
-        ('return mtf * scale_factor' in s, 'scaled by the given factor'),
-    ]
-    for ok, what in checks:
-        if ok:
-            res.ok('geometric: ' + what)
+    # "the geometric MTF is the modulus of the Fourier transform of the
+    # spot's line spread": for N rays of equal weight at coordinates x_j,
+    #     MTF(v) = | (1/N) sum_j exp(2 pi i v x_j) |
+    # (any common shift of the x_j leaves the modulus unchanged).  A histogram
+    # of the spot with a number of bins that is not derived from the highest
+    # frequency is a discrete transform that is periodic in v with period
+    # (number of bins) / (spot width): the curve aliases.
+    from ..match import find, find_seq
+    exact = find_seq(f, ['$ph = 2 * np.pi * np.outer($v, $x - $c)',
+                         '$m = np.abs(np.mean(np.exp(1j * $ph), axis=1))']) \
+        or find_seq(f, ['$ph = 2 * np.pi * np.outer($v, $x)',
+                        '$m = np.abs(np.mean(np.exp(1j * $ph), axis=1))'])
+    hist = [c_ for c_ in ast.walk(f.node) if isinstance(c_, ast.Call) and
+            unparse(c_.func) == 'np.histogram']
+    if exact and not hist:
+        b_ = exact[0]
+        okv = unparse(b_['v']) == f.params[1] and \
+            unparse(b_['x']) == f.params[0]
+        if okv:
+            res.ok('geometric: MTF(v) = |mean_j exp(2 pi i v x_j)|, the exact '
+                   'transform of the line spread of the rays')
         else:
             res.fail(ctx.finding('GEOMETRIC', f, f.node,
-                                 'geometric MTF: ' + what + ' violated',
-                                 construct='geometric ' + what[:30]))
+                                 'geometric MTF: the transform is not taken '
+                                 'over the spot coordinate at the requested '
+                                 'frequencies',
+                                 construct='geometric transform arguments'))
+    elif hist:
+        bins = [unparse(k_.value) for k_ in hist[0].keywords
+                if k_.arg == 'bins'] + [unparse(a_)
+                                        for a_ in hist[0].args[1:2]]
+        tied = any('max' in b_ and ('freq' in b_ or 'v' in b_) for b_ in bins)
+        if tied:
+            res.ok('geometric: histogram with a bin width derived from the '
+                   'highest frequency')
+        else:
+            res.fail(ctx.finding(
+                'GEOMETRIC', f, hist[0],
+                f'the spot is binned into {bins} bins, a number tied to the '
+                f'frequency samples and not to the frequency range: the '
+                f'transform of the bin centres is periodic with f = bins / '
+                f'spot width and the curve returns to the diffraction limit '
+                f'there (PetzvalLens with all defaults: 0.626 at 334 c/mm '
+                f'where the transform of the spot gives 0.010; a 1.76 mm '
+                f'blur disc reported with modulation 1 at 146 c/mm)',
+                construct='geometric MTF aliased by fixed binning'))
+    else:
+        res.fail(ctx.finding('GEOMETRIC', f, f.node,
+                             'geometric MTF: transform of the line spread not '
+                             'recognised', construct='geometric transform'))
+    if 'return mtf * scale_factor' in s:
+        res.ok('geometric: scaled by the given factor')
+    else:
+        res.fail(ctx.finding('GEOMETRIC', f, f.node,
+                             'geometric MTF: scaled by the given factor '
+                             'violated', construct='geometric scaled'))
     g = P.func('GeometricMTF._generate_mtf_data')
     res.saw(g)
     sym = Sym()
